@@ -62,7 +62,10 @@ META = {
                   'exception / exit code + stderr.  Values are abstracted to their top-level type with string items; '
                   'hand-marked Task objects (subtask_of set by the creator) are outside the group clause.  Hypothesis '
                   'Tidy is evaluated by the driver on every case (distribution hyp:Tidy).',
-    'rule': 'creators (function / create_doit_tasks object / with basename attribute, permuted definition lines) '
+    'rule': 'creators (function / create_doit_tasks object / with basename attribute, permuted definition lines; and, in file '
+            'mode, functions of a generated dodo module loaded through ModuleTaskLoader(module): plain, sharing a '
+            'functools.wraps decorator, doubly decorated, bound methods, create_after, task_params, objects, plus an ignored '
+            'functools.partial, defined in non-alphabetical order) '
             'returning dict | generator (nested up to depth 2) | Task | None | other; dicts from doit\'s attribute '
             'vocabulary, mostly valid, with at most a few seeded defects (wrong top-level type incl. True/False/0/1/1.0 '
             'edge values, unknown field, missing actions/name, duplicate names/targets, dangling task_dep/setup/'
@@ -558,6 +561,49 @@ def sanitize(case):
             ta['name'] = ta['name'].replace('=', '_')
 
 
+def _has_params(case):
+    return any(a == 'params' for _, _, d in L._walk_dicts(case) for a, _ in d)
+
+
+def to_file_case(rng, case):
+    """the same creators as functions of a generated dodo *file* (plain, functools.wraps-decorated by a shared
+    decorator, doubly decorated, bound method, create_after, task_params, create_doit_tasks object), defined in the
+    order of their lines, loaded through ModuleTaskLoader(module).  None when the names do not allow it."""
+    names = [c['name'] for c in case['creators']]
+    if len(set(names)) != len(names) or not all(n.isidentifier() and n.isascii() for n in names):
+        return None
+    fc = copy.deepcopy(case)
+    order = sorted(range(len(fc['creators'])), key=lambda i: int(fc['creators'][i]['line']))
+    for rank, i in enumerate(order):
+        fc['creators'][i]['line'] = rank + 1
+    shared = rng.random() < 0.6
+    for c in fc['creators']:
+        c['kind'] = 'wrapped' if shared and rng.random() < 0.8 else rng.choice(L.FILE_KINDS)
+        if c['kind'] == 'task_params' and _has_params(fc):
+            c['kind'] = 'wrapped'
+    fc['mode'] = 'file'
+    return fc
+
+
+def file_exhaustive_cases():
+    """three creators a, b, c in every definition order x patterns of creator kinds"""
+    import itertools
+    res = {'a': {'k': 'gen', 'items': [{'k': 'dict', 'd': [copy.deepcopy(ACTIONS), ['name', ['str', 'z2']]]},
+                                       {'k': 'dict', 'd': [copy.deepcopy(ACTIONS), ['name', ['str', 'z1']]]}]},
+           'b': {'k': 'dict', 'd': [copy.deepcopy(ACTIONS)]},
+           'c': {'k': 'dict', 'd': [copy.deepcopy(ACTIONS), ['task_dep', ['list', ['a']]]]}}
+    kinds = [('wrapped', 'wrapped', 'wrapped'), ('wrapped', 'wrapped', 'func'), ('wrapped2', 'wrapped', 'method'),
+             ('create_after', 'wrapped', 'wrapped'), ('task_params', 'wrapped2', 'obj'), ('method', 'method', 'method'),
+             ('func', 'func', 'func'), ('obj', 'wrapped2', 'wrapped2')]
+    out = []
+    for perm in itertools.permutations(['a', 'b', 'c']):
+        for ks in kinds:
+            cs = [{'name': n, 'line': perm.index(n) + 1, 'kind': k, 'result': copy.deepcopy(res[n])}
+                  for n, k in zip(['a', 'b', 'c'], ks)]
+            out.append(({'creators': cs, 'mode': 'file'}, ['exhaustive:file-module']))
+    return out
+
+
 def exhaustive_cases():
     """every attribute x every edge value, in a returned dict, a sub-task dict and a group-attribute dict; with a
     second creator `x` so that references to 'x' resolve"""
@@ -684,7 +730,10 @@ def evaluate(case, with_cli=False, workdir=None):
     api = L.run_api(case, e['cmds'])
     cli = None
     if with_cli:
-        cli = {'list': L.run_cli(case, ['list'], workdir), 'run': L.run_cli(case, ['run'], workdir)}
+        cli = {'list': L.run_cli(case, ['list'], workdir)}
+        # `doit run` delays a create_after creator (C15): only `list` is comparable for such a case
+        if not any(c.get('kind') == 'create_after' for c in case['creators']):
+            cli['run'] = L.run_cli(case, ['run'], workdir)
     return api, cli, L.monitor(case, api, e['cmds'], e['table'], cli)
 
 
@@ -707,14 +756,14 @@ def _candidates(case):
     cs = case['creators']
     for i in range(len(cs)):
         if len(cs) > 1:
-            yield {'creators': cs[:i] + cs[i + 1:]}
+            yield dict(case, creators=cs[:i] + cs[i + 1:])
     for i, c in enumerate(cs):
         r = c['result']
 
         def with_result(nr):
             c2 = dict(c)
             c2['result'] = nr
-            return {'creators': cs[:i] + [c2] + cs[i + 1:]}
+            return dict(case, creators=cs[:i] + [c2] + cs[i + 1:])
         if r['k'] == 'gen':
             items = r['items']
             for j, it in enumerate(items):
@@ -736,7 +785,7 @@ def _candidates(case):
         if c.get('kind', 'func') != 'func':
             c2 = dict(c)
             c2['kind'] = 'func'
-            yield {'creators': cs[:i] + [c2] + cs[i + 1:]}
+            yield dict(case, creators=cs[:i] + [c2] + cs[i + 1:])
 
 
 def _task_variants(t):
@@ -787,6 +836,7 @@ def check_case(st, case, tags, model_ans, with_cli, workdir, shrunk_reasons):
     st.traces += 1 + (2 if with_cli else 0)
     st.count('outcome:' + api['control']['out'] + (':load' if api['load']['out'] != 'tasks' else ''))
     st.count('creators:%d' % len(case['creators']))
+    st.count('mode:%s' % case.get('mode', 'namespace-dict'))
     for c in case['creators']:
         st.count('result:' + c['result']['k'])
         st.count('creator-kind:' + c.get('kind', 'func'))
@@ -812,7 +862,7 @@ def check_case(st, case, tags, model_ans, with_cli, workdir, shrunk_reasons):
             break
     if cli:
         st.count('cli-cases')
-        for cmd in ('list', 'run'):
+        for cmd in sorted(cli):
             lvl = 'load' if cmd == 'list' else 'control'
             m = model_ans[lvl]['out']
             o = cli[cmd]
@@ -880,7 +930,13 @@ def run(ctx):
     rand = []
     for i in range(n_random):
         r = random.Random(canon([ctx.seed, 'C18', shift, i]))
-        rand.append(gen_case(r))
+        case, tags = gen_case(r)
+        rand.append((case, tags))
+        if i % 3 == 0:
+            fc = to_file_case(r, case)
+            if fc is not None:
+                rand.append((fc, tags + ['file-module']))
+    ex += file_exhaustive_cases()
     batches = []
     # corpus: always with the CLI
     if corpus:
@@ -912,7 +968,7 @@ def replay(ctx, data):
     print('case    :', json.dumps(case))
     print('impl    : load=%s' % json.dumps(_brief(api['load'])))
     print('          control=%s' % json.dumps(_brief(api['control'])))
-    for cmd in ('list', 'run'):
+    for cmd in sorted(cli):
         o = cli[cmd]
         print('doit %-4s: exit=%s ERROR-line=%s traceback=%s  %s' % (cmd, o['code'], o['error'], o['traceback'],
                                                                   o['err'].strip().split('\n')[-1][:140]))
